@@ -342,6 +342,7 @@ func C10() int {
 	c10Unusable(s, c, g)
 	// one key FILE, two separate runs: whatever state the file is in, runs that succeed agree byte for byte
 	c10KeyFileStates(s, c, g)
+	optionHistory(s, c, CoreCorpus(gen.New(c.Seed*79+10), 200))
 
 	c.Set("keys", len(keys))
 	c.Set("flag_sets", flagNames(fsetsPairs))
